@@ -80,8 +80,9 @@ uint64_t bucket(uint64_t n, std::initializer_list<uint64_t> edges) {
 
 // ---------------------------------------------------------------------------------------
 // C05: header, POINT/ANALOG parameters and stored data agree.  "" if they do.
-std::string check_c05(const Snapshot &s, bool i5, std::string *facet) {
-    auto fail = [&](const char *f, const std::string &d) { if (facet) *facet = f; return d; };
+std::string check_c05(const Snapshot &s, bool i5, std::string *facet, size_t *frameIdx) {
+    size_t curFrame = SIZE_MAX;
+    auto fail = [&](const char *f, const std::string &d) { if (facet) *facet = f; if (frameIdx) *frameIdx = curFrame; return d; };
     int64_t used = 0, frames = 0, aused = 0;
     float prate = 0;
     bool hasUsed = get_int(s, "POINT", "USED", used), hasFrames = get_int(s, "POINT", "FRAMES", frames);
@@ -92,9 +93,11 @@ std::string check_c05(const Snapshot &s, bool i5, std::string *facet) {
         return fail("I1.header-vs-USED", "header points " + tos(s.h.nbPoints) + " != POINT:USED " + tos(used));
     for (size_t f = 0; f < s.frames.size(); ++f) {
         if (s.frames[f].empty()) continue;
+        curFrame = f;
         if (hasUsed && static_cast<int64_t>(s.frames[f].pts.size()) != used)
             return fail("I1.frame-vs-USED", "frame " + tos(f) + " has " + tos(s.frames[f].pts.size()) + " points, POINT:USED " + tos(used));
     }
+    curFrame = SIZE_MAX;
     // I2
     if (hasFrames && static_cast<int64_t>(s.frames.size()) != frames)
         return fail("I2.FRAMES-vs-data", "POINT:FRAMES " + tos(frames) + " != stored frames " + tos(s.frames.size()));
@@ -106,9 +109,11 @@ std::string check_c05(const Snapshot &s, bool i5, std::string *facet) {
     if ((hasAUsed && aused >= 1) || anySub) {
         for (size_t f = 0; f < s.frames.size(); ++f) {
             if (s.frames[f].empty()) continue;
+            curFrame = f;
             if (s.frames[f].subs.size() != s.h.nbAnalogByFrame)
                 return fail("I3.subframes", "frame " + tos(f) + " has " + tos(s.frames[f].subs.size()) + " sub-frames, header says " + tos(s.h.nbAnalogByFrame));
         }
+        curFrame = SIZE_MAX;
         if (s.h.nbAnalogByFrame >= 1) {
             if (hasAUsed && static_cast<int64_t>(s.h.nbAnalogs) != aused)
                 return fail("I3.header-vs-USED", "header channels " + tos(s.h.nbAnalogs) + " != ANALOG:USED " + tos(aused));
@@ -274,7 +279,11 @@ Expectation expect_col_analog(const Snapshot &b, const std::vector<SnapFrame> &f
                 if (dup) { e.classes.insert("invalid_argument"); e.why += "name exists; "; break; }
             }
     }
-    if (!e.classes.empty()) { e.kind = EX_MUST_REFUSE; return e; }
+    if (!e.classes.empty()) {
+        // stored gap frames (no sub-frames) make the call fail on its own, with whatever class comes first
+        for (auto &sf : b.frames) if (sf.subs.size() != b.h.nbAnalogByFrame) { e.classes.insert("out_of_range"); break; }
+        e.kind = EX_MUST_REFUSE; return e;
+    }
     bool ok = !fr.empty() && !fr[0].subs.empty();
     size_t nC = ok ? fr[0].subs[0].size() : 0;
     for (size_t f = 0; ok && f < fr.size(); ++f) {
@@ -373,6 +382,8 @@ private:
     std::vector<SnapFrame> lastColExpect;
     int stepIdx = 0;
     uint64_t th = 0xcbf29ce484222325ULL;
+    std::string lastWhat; // what() of the last exception thrown by the object
+    std::string ctxTag;   // context of the call being checked (becomes part of C05 keys)
 
     bool on(uint32_t o) const { return (cfg.oracles & o) != 0; }
     void violate(const char *prop, const std::string &key, const std::string &detail) {
@@ -459,19 +470,37 @@ void World::afterCall(const Step &st, bool threw, const std::string &exc, const 
         if (on(ORC_C10) && mutating) {
             std::string facet;
             std::string d = diff_snapshots(before, cur, DiffOpts(), &facet);
-            if (!d.empty())
-                violate("C10", std::string("changed-after-throw/") + op_name(st.op) + "/" + exc + "/" + facet,
-                        "object changed by a call that threw " + exc + ": " + d);
+            if (!d.empty()) {
+                // objects loaded from files that lack one of the parameters the updaters take for granted form one family
+                if (gen >= 1 && lastWhat.find("could not find") != std::string::npos)
+                    violate("C10", std::string("changed-after-throw/loaded-file-lacks-parameter/") + op_name(st.op),
+                            "object loaded from a file changed by a call that threw " + exc + " (" + lastWhat + "): " + d);
+                else
+                    violate("C10", std::string("changed-after-throw/") + op_name(st.op) + "/" + exc + "/" + facet,
+                            "object changed by a call that threw " + exc + " (" + lastWhat + "): " + d);
+            }
         }
     } else if (mutating) {
         res.st.mutating_ok++;
         mutated();
     }
+    if (threw && mutating && hash_snapshot(before) != hash_snapshot(cur) && !premise_broken) {
+        // C10's business; from here on the history is outside C05's quantifier
+        premise_broken = true; res.st.premise_broken++; probe("premise.refused-call-changed-object");
+    }
+    if (threw && mutating && hash_snapshot(before) != hash_snapshot(cur)) mutated(); // the object is not the one saved before
     if (!stop && on(ORC_C05) && !premise_broken && !threw && mutating) {
         std::string facet;
-        std::string d = check_c05(cur, i5, &facet);
-        if (!d.empty()) violate("C05", facet + "/" + op_name(st.op), d);
+        size_t fi = SIZE_MAX;
+        std::string d = check_c05(cur, i5, &facet, &fi);
+        if (!d.empty()) {
+            std::string key = facet + "/" + op_name(st.op);
+            if (!ctxTag.empty()) key += "/" + ctxTag;
+            if (fi != SIZE_MAX && fi < before.frames.size() && before.frames[fi].empty()) key += "/gap-frame";
+            violate("C05", key, d);
+        }
     }
+    ctxTag.clear();
     if (!stop && on(ORC_C10) && threw && mutating) {
         // agreement of C05 must still hold after the refused call (if it held before it)
         std::string f0, f1;
@@ -583,7 +612,7 @@ void World::doDecl(const Step &st, StepRecord &rec, bool analog) {
     if (on(ORC_C10)) pre = preImage();
     try {
         if (analog) obj->analog(st.s[0]); else obj->point(st.s[0]);
-    } catch (...) { rec.threw = true; rec.exc = classify_current_exception(); }
+    } catch (...) { rec.threw = true; rec.exc = classify_current_exception(&lastWhat); }
     cur = take_snapshot(*obj);
     // C06: declaring a name on a data set that already has frames adds exactly one column
     if (!rec.threw && on(ORC_C06) && !before.frames.empty()) {
@@ -622,7 +651,7 @@ void World::doRate(const Step &st, StepRecord &rec) {
     EParam p("RATE");
     p.set(std::vector<float>() = {bits2f(static_cast<uint32_t>(st.i[1]))});
     const char *g = st.i[0] ? "ANALOG" : "POINT";
-    try { obj->parameter(g, p); } catch (...) { rec.threw = true; rec.exc = classify_current_exception(); }
+    try { obj->parameter(g, p); } catch (...) { rec.threw = true; rec.exc = classify_current_exception(&lastWhat); }
     cur = take_snapshot(*obj);
     if (!rec.threw) {
         // rates that contradict the sub-frame count of frames already stored: content the format cannot hold
@@ -696,9 +725,9 @@ void World::doParam(const Step &st, StepRecord &rec) {
     Snapshot before = cur;
     std::vector<uint8_t> preImg;
     if (on(ORC_C10)) preImg = preImage();
-    try { obj->parameter(st.s[0], p); } catch (...) { rec.threw = true; rec.exc = classify_current_exception(); }
+    try { obj->parameter(st.s[0], p); } catch (...) { rec.threw = true; rec.exc = classify_current_exception(&lastWhat); }
     cur = take_snapshot(*obj);
-    if (on(ORC_C07) || on(ORC_C09)) {
+    if (on(ORC_C09)) {
         // documented refusals of parameter(): unnamed -> invalid_argument
         if (st.s[1].empty()) {
             if (!rec.threw) violate("C09", "parameter/unnamed-accepted", "a parameter without a name was accepted");
@@ -706,7 +735,8 @@ void World::doParam(const Step &st, StepRecord &rec) {
         } else if (type == 0) {
             if (!rec.threw) violate("C09", "parameter/untyped-accepted", "a parameter without a type was accepted");
         } else if (rec.threw) {
-            violate("C09", "parameter/refused-valid/" + rec.exc, "a named, typed parameter was refused: " + rec.exc);
+            if (gen >= 1 && lastWhat.find("could not find") != std::string::npos) violate("C09", "parameter/refused-valid/loaded-file-lacks-parameter", "a named, typed parameter was refused on an object loaded from a file (" + lastWhat + ")");
+            else violate("C09", "parameter/refused-valid/" + rec.exc, "a named, typed parameter was refused: " + rec.exc + " (" + lastWhat + ")");
         }
     }
     if (!stop && !rec.threw && on(ORC_C09)) {
@@ -736,7 +766,7 @@ void World::doLock(const Step &st, StepRecord &rec, bool lock) {
     if (!obj || st.s.empty()) { rec.skipped = true; return; }
     Snapshot before = cur;
     try { if (lock) obj->lockGroup(st.s[0]); else obj->unlockGroup(st.s[0]); }
-    catch (...) { rec.threw = true; rec.exc = classify_current_exception(); }
+    catch (...) { rec.threw = true; rec.exc = classify_current_exception(&lastWhat); }
     cur = take_snapshot(*obj);
     if (on(ORC_C09)) {
         bool exists = before.group(st.s[0]) != nullptr;
@@ -812,6 +842,8 @@ void World::doFrameBuild(const Step &st, StepRecord &rec) {
     Rng r(static_cast<uint64_t>(st.i[2]));
     buildInto(cf, dev, r, st.i.size() > 3 ? st.i[3] : 0);
     rec.aux = static_cast<uint64_t>(dev);
+    // nothing declared yet and no deviation asked for: there is no frame to hand over
+    if (dev == DEV_NONE && cf.expect.pts.empty() && cf.expect.subs.empty()) { cf.built = false; rec.skipped = true; probe("frame.nothing-declared"); }
 }
 
 void World::doBulk(const Step &st, StepRecord &rec) {
@@ -874,13 +906,16 @@ void World::doFrameSubmit(const Step &st, StepRecord &rec) {
     std::vector<uint8_t> preImg;
     if (on(ORC_C10)) preImg = preImage();
     try { if (idx == SIZE_MAX) obj->frame(cf.fr); else obj->frame(cf.fr, idx); }
-    catch (...) { rec.threw = true; rec.exc = classify_current_exception(); }
+    catch (...) { rec.threw = true; rec.exc = classify_current_exception(&lastWhat); }
     cur = take_snapshot(*obj);
     rec.aux = static_cast<uint64_t>(ex.kind) * 16 + static_cast<uint64_t>(mode);
     if (on(ORC_C07)) {
         if (ex.kind == EX_MUST_REFUSE && !rec.threw) violate("C07", "frame/accepted-deviating", "frame accepted although: " + ex.why);
         else if (ex.kind == EX_MUST_REFUSE && !ex.classes.count(rec.exc)) violate("C07", "frame/refusal-class/" + rec.exc, "frame refused with " + rec.exc + " for: " + ex.why);
-        else if (ex.kind == EX_MUST_ACCEPT && rec.threw) violate("C07", "frame/refused-conforming/" + rec.exc, "a frame matching the declared names, counts, rates and ratio was refused (" + rec.exc + ")");
+        else if (ex.kind == EX_MUST_ACCEPT && rec.threw && !premise_broken) {
+            if (gen >= 1 && lastWhat.find("could not find") != std::string::npos) violate("C07", "refused-conforming/loaded-file-lacks-parameter/FRAME_SUBMIT", "a conforming frame was refused on an object loaded from a file (" + lastWhat + ")");
+            else violate("C07", "frame/refused-conforming/" + rec.exc, "a frame matching the declared names, counts, rates and ratio was refused (" + rec.exc + ": " + lastWhat + ")");
+        }
     }
     if (ex.kind == EX_MUST_REFUSE) probe("frame.must_refuse"); else if (ex.kind == EX_MUST_ACCEPT) probe("frame.must_accept"); else probe("frame.dont_care");
     if (!rec.threw && ex.kind != EX_MUST_ACCEPT) { premise_broken = true; res.st.premise_broken++; }
@@ -903,6 +938,7 @@ void World::doFrameSubmit(const Step &st, StepRecord &rec) {
         }
         if (mode == 3) probe("frame.extend"); else if (mode == 1) probe("frame.replace");
     }
+    ctxTag = idx == SIZE_MAX ? "append" : idx < n ? "replace" : (n == 0 && idx > 0) ? "extend-on-empty" : "extend";
     if (!rec.threw) {
         if (idx == SIZE_MAX) model.push_back(cf.expect);
         else { if (idx >= model.size()) model.resize(idx + 1); model[idx] = cf.expect; }
@@ -998,14 +1034,17 @@ void World::doCol(const Step &st, StepRecord &rec, bool analog) {
     std::vector<uint8_t> preImg;
     if (on(ORC_C10)) preImg = preImage();
     try { if (analog) obj->analog(lastCol); else obj->point(lastCol); }
-    catch (...) { rec.threw = true; rec.exc = classify_current_exception(); }
+    catch (...) { rec.threw = true; rec.exc = classify_current_exception(&lastWhat); }
     cur = take_snapshot(*obj);
     rec.aux = static_cast<uint64_t>(ex.kind) * 16 + static_cast<uint64_t>(dev);
     const char *which = analog ? "col-analog" : "col-point";
     if (on(ORC_C07)) {
         if (ex.kind == EX_MUST_REFUSE && !rec.threw) violate("C07", std::string(which) + "/accepted-deviating", std::string("column accepted although: ") + ex.why);
         else if (ex.kind == EX_MUST_REFUSE && !ex.classes.count(rec.exc)) violate("C07", std::string(which) + "/refusal-class/" + rec.exc, "column refused with " + rec.exc + " for: " + ex.why);
-        else if (ex.kind == EX_MUST_ACCEPT && rec.threw) violate("C07", std::string(which) + "/refused-conforming/" + rec.exc, "a column matching the data set was refused (" + rec.exc + ")");
+        else if (ex.kind == EX_MUST_ACCEPT && rec.threw && !premise_broken) {
+            if (gen >= 1 && lastWhat.find("could not find") != std::string::npos) violate("C07", std::string("refused-conforming/loaded-file-lacks-parameter/") + op_name(st.op), "a conforming column was refused on an object loaded from a file (" + lastWhat + ")");
+            else violate("C07", std::string(which) + "/refused-conforming/" + rec.exc, "a column matching the data set was refused (" + rec.exc + ": " + lastWhat + ")");
+        }
     }
     if (ex.kind == EX_MUST_REFUSE) probe("col.must_refuse"); else if (ex.kind == EX_MUST_ACCEPT) probe("col.must_accept"); else probe("col.dont_care");
     if (!rec.threw && ex.kind != EX_MUST_ACCEPT) { premise_broken = true; res.st.premise_broken++; }
@@ -1158,7 +1197,7 @@ void World::doReload(const Step &st, StepRecord &rec) {
     if (gen < 1) gen = 1;
     pristine = true;
     loaded_from = static_cast<int>(si);
-    premise_broken = false;
+    premise_broken = sv.premise_broken; // a file written from an out-of-premise object stays out of premise
     model = cur.frames;
     if (enabled && (api || sv.writer_pristine)) {
         DiffOpts o;
@@ -1177,7 +1216,7 @@ void World::doReload(const Step &st, StepRecord &rec) {
     }
     { std::string f; if (!check_c05(cur, true, &f).empty()) i5 = false; }
     if (!stop && on(ORC_C05) && !api) { /* a reload is a successful public call too */ }
-    if (!stop && on(ORC_C05)) {
+    if (!stop && on(ORC_C05) && !premise_broken) {
         std::string facet, d = check_c05(cur, i5, &facet);
         if (!d.empty()) violate("C05", facet + "/RELOAD", d);
     }
@@ -1189,7 +1228,7 @@ void World::doPrint(const Step &st, StepRecord &rec) {
     if (!cfg.capture_print) { rec.skipped = true; return; }
     std::ostringstream sink;
     std::streambuf *old = std::cout.rdbuf(sink.rdbuf());
-    try { obj->print(); } catch (...) { rec.threw = true; rec.exc = classify_current_exception(); }
+    try { obj->print(); } catch (...) { rec.threw = true; rec.exc = classify_current_exception(&lastWhat); }
     std::cout.rdbuf(old);
     rec.aux = hash_str(sink.str());
     Snapshot before = cur;
